@@ -173,7 +173,8 @@ def run_chain(ctx, chain, tag, upto=None, final_end=None):
             end = final_end
         spec = {"file": path, "mode": g["mode"], "seed": gen_seed(chain, i), "phases": g["phases"],
                 "end": end, "out": out, "big": g.get("big", True), "kill": True,
-                "compression": g.get("compression"), "profiles": g.get("profiles"), "fapl": g.get("fapl")}
+                "compression": g.get("compression"), "profiles": g.get("profiles"), "fapl": g.get("fapl"),
+                "multi": g.get("multi"), "fsize": g.get("fsize")}
         rc, err = _run_py(ctx, spec, "%s.g%d" % (tag, i))
         o = _load(out)
         if o is None:
@@ -276,6 +277,70 @@ def gen_overwrite_chain(rng, quick):
     return {"kind": "chain", "seed": rng.randrange(10 ** 9), "gens": gens}
 
 
+def gen_multi_chain(rng, quick, shape=None, mode2=None):
+    """a writer process that holds TWO File objects on the same path (read-write + read-write, or read-write +
+    read-only; the second opened before / between / after the writes); operations go through either object, the
+    flush points and the end call (flush / close) are issued on either, the other object stays open until the
+    kill.  The promise applies to whichever flush()/close() returned last.
+    shape "close_writer": writes through the second read-write object, which is then closed while the first stays
+    open; "flush_other": the end flush is issued on the object the writes did NOT go through (second one
+    read-only or read-write); None: everything drawn."""
+    hi = 12 if quick else 22
+    gens = []
+    if rng.random() < 0.6:
+        # the path holds a file already (a writer that re-opens an existing recording)
+        gens.append({"mode": "w", "phases": [rng.randrange(4, hi)], "end": rng.choice(["close", "flush", "exit"]),
+                     "big": False, "compression": rng.choice(FILE_COMPRESSIONS)})
+        mode1 = rng.choice(["a", "a", "w"])
+    else:
+        mode1 = rng.choice(["w", "a"])
+    k = rng.choice([2, 2, 3])
+    phases = [rng.randrange(3, hi) for _ in range(k)]
+    mode2 = mode2 or rng.choice(["a", "r"])
+    open2 = rng.randrange(0, k + 1)
+    end = rng.choice(["flush", "flush", "close", "flush_flush"])
+    end_via = rng.choice(["first", "second"])
+    if shape == "close_writer":
+        mode2, open2, end, end_via = "a", rng.randrange(0, k), "close", "second"
+    elif shape == "flush_other":
+        open2, end, end_via = rng.randrange(0, k + 1), rng.choice(["flush", "flush", "flush_flush"]), "second"
+    via = []
+    for j in range(k):
+        if mode2 == "a" and j >= open2:
+            via.append("second" if (shape == "close_writer" or rng.random() < 0.5) else "first")
+        else:
+            via.append("first")        # a read-only object is not written through
+    if shape == "flush_other":
+        via = ["first"] * k
+    multi = {"mode2": mode2, "open2": open2, "via": via,
+             "flush_via": [rng.choice(["first", "second"]) for _ in range(k)], "end_via": end_via}
+    if shape is None and open2 < k - 1 and rng.random() < 0.3:
+        multi["close2_at"] = rng.randrange(open2, k - 1)
+    g = {"mode": mode1, "phases": phases, "end": end, "big": rng.random() < 0.2,
+         "compression": rng.choice(FILE_COMPRESSIONS), "multi": multi}
+    if rng.random() < 0.4:
+        g["profiles"] = ["mixed"] + [rng.choice(SPECIAL_PROFILES + ["mixed"]) for _ in range(k - 1)]
+    gens.append(g)
+    return {"kind": "chain", "seed": rng.randrange(10 ** 9), "gens": gens}
+
+
+def gen_fault_chain(rng, quick):
+    """a writer whose last phase and end call (flush / close) run under a file-size limit (the file cannot grow
+    beyond its size at the previous flush point + slack): an end call that RETURNS has promised the state at that
+    call; one that raises has promised nothing (and nothing is checked)."""
+    hi = 14 if quick else 24
+    gens = []
+    if rng.random() < 0.3:
+        gens.append({"mode": "w", "phases": [rng.randrange(4, hi)], "end": "close", "big": False,
+                     "compression": rng.choice(FILE_COMPRESSIONS)})
+    prof = rng.choice(["append_only", "append_only", "mixed", "mixed", "attrs_only", "small_append"])
+    gens.append({"mode": "a" if gens else "w", "phases": [rng.randrange(6, hi), rng.randrange(3, 9)],
+                 "profiles": ["mixed", prof], "end": rng.choice(["flush", "flush", "flush", "close", "flush_flush"]),
+                 "big": False, "compression": rng.choice(FILE_COMPRESSIONS),
+                 "fsize": {"slack": rng.choice([0, 512, 512, 4096])}})
+    return {"kind": "chain", "seed": rng.randrange(10 ** 9), "gens": gens}
+
+
 # ---------------------------------------------------------------------------------------
 # probes of the open path's model: what libhdf5 does with library-version bounds on the property list
 
@@ -348,6 +413,15 @@ def check_generation(chain, i, rec):
     if out.get("end_error"):
         return None          # the call did not return: the property's premise is not met (reported as disagreement)
     want = out["final_walk"]
+    if want is None:
+        return None          # no state recorded (writes refused under a size limit left nothing walkable): no claim
+    g = rec["spec"]
+    if g.get("multi"):
+        end = "%s (on the %s of two File objects open on the path, second one opened %r)" % (
+            end, g["multi"].get("end_via", "first") if out.get("second_opened") else "first",
+            g["multi"].get("mode2"))
+    if g.get("fsize"):
+        end = "%s (which returned normally under a file-size limit)" % end
     for m, label in (("r", "read-only"), ("a", "read-write")):
         o = obs.get(m, {})
         if "open_error" in o:
@@ -723,6 +797,10 @@ def correspondence(ctx):
     # a path that already holds a file, taken over with Overwrite, flushed (not closed) and killed
     for _ in range(ctx.budget(1, 6)):
         chains.append(gen_overwrite_chain(rng, quick))
+    # two File objects on the path in one writer process (for the model: one session - a flush / close through
+    # either object is a flush / close of the file)
+    for j in range(ctx.budget(2, 12)):
+        chains.append(gen_multi_chain(rng, quick, shape=[None, "close_writer", "flush_other"][j % 3]))
     # probes of the open-path model (library-version bounds on the property list): model vs libhdf5 only, the
     # property oracle does not look at them
     chains.extend(gen_fapl_probes(rng, ctx.budget(5, 10 ** 6)))
@@ -912,8 +990,21 @@ def oracle(ctx, broken, hints):
         n_own = 150
     kills = 0
     own = []
+    # two File objects on one path in the writer (every run: writes through a second read-write object that is
+    # closed while the first stays open; end flush on a read-only / read-write object the writes did not go through)
+    # and end calls under a file-size limit
+    own.append(gen_multi_chain(rng, quick, "close_writer"))
+    own.append(gen_multi_chain(rng, quick, "flush_other", mode2="r"))
+    own.append(gen_multi_chain(rng, quick, "flush_other", mode2="a"))
+    for _ in range(10 if broken else ctx.budget(1, 8)):
+        own.append(gen_multi_chain(rng, quick))
+    for _ in range(12 if broken else ctx.budget(4, 16)):
+        own.append(gen_fault_chain(rng, quick))
+    n_pre = len(own)
+    n_own += sum(len(c["gens"]) for c in own)
+    kills = sum(len(c["gens"]) for c in own)
     while kills < n_own:
-        i = len(own)
+        i = len(own) - n_pre
         if i % 6 == 5:
             c = gen_overwrite_chain(rng, quick)
         elif i % 2 == 1:
@@ -937,7 +1028,7 @@ def oracle(ctx, broken, hints):
                     failures.append(f)
                     break
     # 2. self-test of the oracle: the same histories killed without a flush must be detectable sometimes
-    neg = negative_control(ctx, own[:ctx.budget(4, 24)])
+    neg = negative_control(ctx, own[n_pre:][:ctx.budget(4, 24)])
     failures.sort(key=lambda f: (len(f.input["gens"]), sum(sum(g["phases"]) for g in f.input["gens"])))
     return {"evaluations": evaluations, "failures": failures, "negative_control": neg,
             "own_kills": kills}
